@@ -620,7 +620,7 @@ class EncodeCatRows(Filter[Iterable[Union[Any,Dense,Sparse]], Iterable[Union[Any
                     for _k in k:
                         o[_k] =  o[_k].as_onehot
 
-        catkeys = list(catkey(first))
+        catkeys = list(catkey(first if isinstance(first,(list,tuple,dict)) else first.copy()))
 
         if not catkeys:
             yield from rows
@@ -628,7 +628,12 @@ class EncodeCatRows(Filter[Iterable[Union[Any,Dense,Sparse]], Iterable[Union[Any
             #cat_cols is list of numbers or list of lists
             is_nums = isinstance(catkeys[0],int)
             for row in rows:
-                row = list(row) if isinstance(row,tuple) else copy(row)
+                if isinstance(row,tuple):
+                    row = list(row)
+                elif isinstance(row,(list,dict)):
+                    row = copy(row)
+                else:
+                    row = row.copy() #materialize lazy Dense/Sparse rows as a plain list/dict
 
                 if is_nums:
                     catset(row,catkeys)
